@@ -105,6 +105,8 @@ CLAIMS["C03"]["note"] = TRUST + "cube root axiomatised (r^3 = x); box precedence
 CLAIMS["C14"]["text"] = "Deductive: tag_exclusions writes nothing for a uniform exclusion distance and otherwise tags every involved block with its ORIGINAL distance and sets nrexcl to the minimum, all other blocks untouched (two loop invariants over the node->block table; blocks shared by several residues handled through alias semantics). " + CLAIMS["C14"]["text"].replace("Bounded only so far: ", "Bounded: ")
 CLAIMS["C14"]["technique"] = P_TECH + "; " + B_TECH
 CLAIMS["C14"]["note"] = TRUST + "networkx.set_node_attributes modelled for a uniform value; expand_excl / neighborhood (graph distances) are decided by the bounded unit only. Known finding K16."
+CLAIMS["C06"]["text"] = CLAIMS["C06"]["text"].split("'other' because")[0] + "Bounded: the real Backmap on 5.4k hand-made worlds (8 residue types incl. chiral and virtual-site ones x every labelled tree/ring on <= 4 residues x built/unbuilt neighbours x scripted and real optimiser angles x factors) and 404 gen_coords worlds (templates from the real GenerateTemplates incl. the failed-optimisation path): centre, proper rotation by Kabsch fit + signed volume, congruence of all copies, own-atom-name, untouched residues, shared templates unmodified."
+CLAIMS["C06"]["technique"] = P_TECH + "; " + B_TECH
 NOT_CLAIMED = {}
 NOTES = ("See DESIGN.md. Properties listed under not_applicable with the reason 'check not finished' are unclaimed work in progress, "
          "not judged inapplicable. level 'other' everywhere: each check combines deductive units (counted in coverage.obligations/discharged) "
